@@ -55,6 +55,9 @@ type CloneCase struct {
 	T       hs.Type
 	V       hs.WV
 	Actions []Action
+	// Pre: actions applied to the original BEFORE it is cloned (a value has a past: lists that were longer once,
+	// objects whose fields were replaced); the value that is cloned is the one the actions lead to
+	Pre []Action `json:",omitempty"`
 }
 
 type JSONCase struct {
@@ -738,8 +741,37 @@ func checkClone(c CloneCase) *pk.Failure {
 	}
 	ctx := fmt.Sprintf("type %s\n  v = %s", typeStr(c.T), show(c.V.V))
 	var orig, clone *vv.Value
+	if len(c.Pre) > 0 {
+		// the value's past: applied to the model and to the VM value alike; the case continues from their result
+		var m hs.Value = hs.DeepCopy(c.V.V)
+		var o *vv.Value
+		preHist := ""
+		if p := guard(func() { o = hostkit.ToVM(c.V.V) }); p != "" {
+			return pk.Failf("clone", "panic:clone:"+kindName(c.V.V), "ToVM panicked: %s\n%s", p, ctx)
+		}
+		for k, a := range c.Pre {
+			a.OnClone = false
+			applicable, wantErr, _ := applyModel(&m, a)
+			if !applicable {
+				continue
+			}
+			preHist += fmt.Sprintf("\n  before the clone, step %d: %s at %v index=%d arg=%s", k, a.Op, a.Path, a.I, show(a.Val.V))
+			var intr, err string
+			if p := guard(func() { _, intr, err = applyVM(o, a) }); p != "" {
+				return pk.Failf("clone", "panic:clone-op:"+opClass(a), "%s panicked: %s\n%s%s", a.Op, p, ctx, preHist)
+			}
+			if err != "" || (intr != "") != wantErr {
+				return pk.Failf("clone", "clone-op-model:"+opClass(a)+":pre", "%s before the clone: error expected=%v, got %q %q\n%s%s", a.Op, wantErr, intr, err, ctx, preHist)
+			}
+		}
+		c.V = hs.WV{V: m}
+		ctx += preHist + "\n  cloned value = " + show(m)
+		orig = o
+	}
 	if p := guard(func() {
-		orig = hostkit.ToVM(c.V.V)
+		if orig == nil {
+			orig = hostkit.ToVM(c.V.V)
+		}
 		clone = (*orig).Clone()
 	}); p != "" {
 		return pk.Failf("clone", "panic:clone:"+kindName(c.V.V), "Clone() panicked: %s\n%s", p, ctx)
